@@ -3111,6 +3111,11 @@ nameserver_probe_callback(int result, char type, int count, int ttl, void *addre
 		 * the nameserver. */
 		return;
 	}
+	if (result == DNS_ERR_SHUTDOWN) {
+		/* evdns_base_free(base, 1): the nameserver and the base are
+		 * already gone. */
+		return;
+	}
 
 	EVDNS_LOCK(ns->base);
 	ns->probe_request = NULL;
